@@ -631,10 +631,11 @@ def r9_converters_guarded(a, tier):
         if value_forms <= {'regex'}:
             continue  # the `regex` action validates it (first part of this rule)
         validated = []
-        me = Stub('tatsu.peg.semantics.GrammarSemantics', name='g', rulemap={}, _validate_pattern=Hook(lambda v: validated.append(v)),
+        me = Stub('tatsu.peg.semantics.GrammarSemantics', name='g', rulemap={}, context=None, _validate_pattern=Hook(lambda v: validated.append(v)),
                   _validate_literal=Hook(lambda v: None))
         astv = Obj(directives=[Obj(name=setting, value='(')], keywords=[])
-        it = ModelInterp(a, {'flatten': Hook(lambda x: list(x) if x else []), 'literal_eval': Hook(lambda x: x), 'g': Obj(Grammar=None)})
+        it = ModelInterp(a, {'flatten': Hook(lambda x: list(x) if x else []), 'literal_eval': Hook(lambda x: x), 'g': Obj(Grammar=None),
+                             'getattr': Hook(lambda o, n, *d: d[0] if d else None)})
 
         def methods(recv, name, args, kwargs):
             if isinstance(recv, Obj) and name == 'Grammar':
